@@ -692,10 +692,14 @@ class Engine(ExprMixin, CallMixin):
                     for lab, b in inv_at(s2, i + 1, s0):
                         self.oblige('loop-pres', 'loop@%d preserves: %s' % (line, lab), s2, b, node, inductive=True)
                 elif ctrl == 'break':
+                    s2 = s2.copy()
+                    s2.ghost['$loop_index_%s' % getattr(node, '_pyvc_ord', 0)] = i
                     out.append(('next', None, s2))
                 else:
                     out.append((ctrl, val, s2))
         for es in exit_states:
+            if is_for:
+                es.ghost['$loop_index_%s' % getattr(node, '_pyvc_ord', 0)] = seq['n']
             if not self.feasible(es.pc):
                 continue
             es.note('loop@%d exit' % line)
